@@ -1093,7 +1093,8 @@ class StepUpCounter(Logic):
         Constant(self, 'zero', 0, zero)
         
         if (inc is None):
-            inc = one
+            inc = self.wire('one', 1)
+            Constant(self, 'one', 1, inc)
         if (reset is None):
             reset = zero
             
